@@ -1,3 +1,4 @@
+import RactorModel.Extracted
 import RactorModel.Lemmas.AdmissionCore
 import RactorModel.Lemmas.AdmissionIds
 import RactorModel.Lemmas.AdmissionQueue
@@ -207,6 +208,17 @@ theorem wrong_type_send_changes_nothing (s : Shared) (id : Nat) (late bf : Bool)
 theorem status_monotone (g : G) (sched : List Tid) : g.sh.status ≤ (run g sched).sh.status :=
   (mono_run g sched).status
 
+/-! ### Source guards (E-SRC) -/
+
+/-- `send_message_unchecked` = status gate, admission, boxing, enqueue — in this order. -/
+theorem src_send_steps :
+    Extracted.sendSteps = ["get_status()", "try_admit_message()", "box_message(", ".send(MuxedMessage::Message"] := by
+  decide
+
+/-- `ActorPortSet::drop` closes the message channel before flushing it. -/
+theorem src_port_drop : "message_rx" ∈ Extracted.portSetDropClose ∧ "message_rx" ∈ Extracted.portSetDropFlush := by
+  decide
+
 /-! ### Non-vacuity -/
 
 /-- two senders racing: thread 1's message is enqueued first although thread 0 was admitted
@@ -249,3 +261,5 @@ end C02
 #print axioms C02.nothing_handled_after_close
 #print axioms C02.wrong_type_send_changes_nothing
 #print axioms C02.status_monotone
+#print axioms C02.src_send_steps
+#print axioms C02.src_port_drop
